@@ -55,7 +55,7 @@ CHECKS = {
   design="7/C11"),
  "C12": dict(
   technique="runtime invariant monitor: canary-filled backing arrays around every caller slice, deep snapshots of argument structs and package state before/after, address-range aliasing check (thorough: also -race/checkptr and -asan builds)",
-  text="OCRA input fields (for hand-built, registered and generated unregistered suites) are carved out of canary arrays in three length/capacity shapes and the full backing arrays, slice headers and suite are compared after OCRAInput.Validate / GenerateOCRA / ValidateOCRA; Param pointers, parsed URLs and returned URLParam/url.URL/SuiteConfig/list values are snapshotted, mutated and re-queried; returned slices are checked pairwise and against arguments for memory overlap; defaults, TimeCounterFunc, hash-name table and the registry (through the hook) are compared with a start snapshot after every batch.",
+  text="OCRA input fields (for hand-built, registered and generated unregistered suites) are carved out of canary arrays in three length/capacity shapes and the full backing arrays, slice headers and suite are compared after OCRAInput.Validate / GenerateOCRA / ValidateOCRA; Param pointers, parsed URLs and returned URLParam/url.URL/SuiteConfig/list values are snapshotted, mutated and re-queried; returned slices are checked pairwise and against arguments for memory overlap; defaults, TimeCounterFunc, hash-name table and the registry (through the hook) are compared with a start snapshot after every batch. ParseOTPAuthURL also receives opaque-form URLs (no //), empty authorities, other schemes and url.URL values built by hand.",
   design="7/C12"),
  "C13": dict(
   technique="runtime invariant monitor on every (ok, err) pair and error text produced by the validation workloads and by failing calls of the other operations",
@@ -75,7 +75,7 @@ CHECKS = {
   design="7/C16"),
  "C17": dict(
   technique="runtime reference-model monitor: helper outputs versus independent encoders, and end-to-end OCRA codes for numeric questions versus the RFC 6287 model",
-  text="Each helper runs on boundary/random 64-bit values and on strings of length 0..300 from digit/hex/sign/letter classes and is compared with an independent encoder (value-exact, or error / documented panic for malformed text; overlong hex timestamps and signed questions by a two-answer rule); sequential fault / normalisation-neighbour histories per helper; HexInputToOCRA over all 3^5 valid/invalid/empty combinations; decimal questions of every length 1..64 plus structured values (sums of few powers of 2/10/16, byte/word aligned) through the helper and GenerateOCRA must equal the RFC value. A reduced version of the differential also runs compiled for a 32-bit target (GOARCH=386, cmd/arch386).",
+  text="Each helper runs on boundary/random 64-bit values and on strings of length 0..300 from digit/hex/sign/letter classes and is compared with an independent encoder (value-exact, or error / documented panic for malformed text; overlong hex timestamps and signed questions by a two-answer rule); sequential fault / normalisation-neighbour histories per helper; HexInputToOCRA over all 3^5 valid/invalid/empty combinations; decimal questions of every length 1..64 plus structured values (sums of few powers of 2/10/16, byte/word aligned) through the helper and GenerateOCRA must equal the RFC value. A reduced version of the differential also runs compiled for a 32-bit target (GOARCH=386, cmd/arch386). Every byte value 0..255 is placed at every kind of position in short texts through all decimal and hex helpers and each field of HexInputToOCRA.",
   design="7/C17"),
  "C18": dict(
   technique="black-box differential monitor on the real server binary over loopback: each HTTP response versus the in-process library call with exactly the request's parameters and versus the independent reference model (thorough: also a -race build of the server)",
